@@ -2,36 +2,28 @@
 
 PROPS = {}
 
+# properties without a check (yet); every one of C01..C20 is either in PROPS or here
+NOT_APPLICABLE = {pid: 'check not built yet (work in progress; see DESIGN.md section 11 build order)'
+                  for pid in ['C%02d' % i for i in range(1, 21)]}
+
+TRUSTED = ('Trusted base: the simulator (txsim.core), the scripted Tor peer written from control-spec / RFC 1928 / '
+           'dir-spec (its reading of the specs is the reference), Twisted Deferred/LineOnlyReceiver, CPython. '
+           'Sampling, not proof: a clean batch is evidence bounded by the stated sizes.')
+
 
 def reg(pid, **kw):
     PROPS[pid] = kw
+    NOT_APPLICABLE.pop(pid, None)
 
 
-reg('C01', scenario='ctl', level='exploration',
-    rule='Each run: NULL-auth bootstrap, then up to max_cmds plain / per-line-callback commands submitted at '
-         'scheduler-chosen moments (also re-entrantly from reply callbacks) against replies drawn from the control-spec '
-         'grammar, delivered under drawn segmentation.',
-    params=dict(max_cmds=24, max_queue=8, max_parts=6, max_steps=4000),
-    quick=dict(units=40000, wall_cap=150),
-    thorough=dict(units=1200000, wall_cap=1500),
-    assumptions=['replies are well formed per control-spec 2.3; Tor never interleaves a 650 inside a reply',
-                 'only 2xx and 5xx reply codes; ASCII lines without CR/LF'])
 
-reg('C02', scenario='ctl', level='exploration',
-    rule='C01 workload plus asynchronous 650 events in the three wire forms for names with/without listeners, '
-         'emitted between replies, and listener add/remove operations before and during delivery (raise, remove self, '
-         'remove other).',
-    params=dict(max_cmds=12, max_queue=6, max_parts=4, max_steps=4000, max_events=20, max_listener_ops=12, max_listeners=6),
-    quick=dict(units=40000, wall_cap=150),
-    thorough=dict(units=1200000, wall_cap=1500),
-    assumptions=['events are emitted only between replies (control-spec 4.1)',
-                 'a listener removed during the delivery of an event may or may not receive that event'])
+def _load():
+    import importlib
+    import os
+    d = os.path.join(os.path.dirname(os.path.abspath(__file__)), 'propdefs')
+    for fn in sorted(os.listdir(d)):
+        if fn.endswith('.py') and fn != '__init__.py':
+            importlib.import_module('txsim.propdefs.' + fn[:-3])
 
-reg('C03', scenario='ctl', level='fault_enumeration',
-    rule='Each unit: one seeded base session (authentication + up to max_cmds commands), then the same session is '
-         're-run with the connection cut at EVERY byte offset of the server->client stream, once cleanly and once '
-         'uncleanly, followed by 0..4 post-loss submissions and 0..2 late when_disconnected() requests.',
-    params=dict(max_cmds=8, max_queue=6, max_parts=3, max_steps=3000, short_names=True),
-    quick=dict(units=48, wall_cap=200, chunk=1, recheck_every=7),
-    thorough=dict(units=2400, wall_cap=1800, chunk=4, recheck_every=31),
-    assumptions=['a command counts as answered iff the last byte of its end line was delivered before the cut'])
+
+_load()
